@@ -152,7 +152,9 @@ pub fn check(ctx: &Ctx) -> i32 {
     });
     // timestamps off the audio sample grid at every standard sample rate (capture clocks do not
     // count in samples): 5 frames at the codec's cadence, each displaced by 0-30 microseconds
-    let rates: Vec<u32> = oracle::frames::AAC_RATES.iter().copied().filter(|&r| r < 65536).collect();
+    // (all 13 standard rates: the timeline does not depend on the 16.16 rate field, whose
+    // inability to hold 88200 / 96000 Hz is C07's and C16's recorded finding)
+    let rates: Vec<u32> = oracle::frames::AAC_RATES.to_vec();
     let tr = par_items(&rates, ctx.seed, |idx, &rate, t| {
         let mut k = 0u64;
         for fast in [true, false] {
@@ -216,7 +218,7 @@ pub fn check(ctx: &Ctx) -> i32 {
         &tally,
         Meta {
             level: "model_checking",
-            rule: format!("every A/V history over: first video decode time {{0, 1/30, 1, 10 s}} x first video composition offset {{0, +2 frames}} x audio start minus first video presentation {{0, 1 tick, 1024/48000, 0.25, 3 s}} x 2-3 video frames x 2-3 audio frames x audio step pattern {{1024/48000, 1024/44100, 0.02, 0, (0, 1024/48000), (0.02, 0), (0.5, 0.02), (0.003, 0.5): pauses and overlaps relative to the packets' coded durations}}, plus runs of 8 and 12 audio frames at the 48 kHz and 44.1 kHz AAC spacings, plus every audio step sequence of 2..{jmax} steps over {{600, 1200, 1800, 3000}} ticks ({n_jitter} sequences x AAC/Opus), plus every standard AAC sample rate below 65536 Hz x 3 sub-sample displacement patterns (0-30 microseconds) x 2 start times x both layouts, plus {n_conv} encode_video/encode_audio histories (every sequence of 2..5 audio frame lengths over Opus {{10, 20, 40, 60 ms}} and AAC {{1024, 2048}}), x {{AAC, Opus}} x both layouts x codecs; executed on the real muxer; per-track presentation timelines rebuilt from stts/ctts (+ edit list if present, empty edits and media_time honoured) and every audio sample's presentation time relative to the first video frame compared with the submitted difference (tolerance 1 tick). Distinct by output bytes."),
+            rule: format!("every A/V history over: first video decode time {{0, 1/30, 1, 10 s}} x first video composition offset {{0, +2 frames}} x audio start minus first video presentation {{0, 1 tick, 1024/48000, 0.25, 3 s}} x 2-3 video frames x 2-3 audio frames x audio step pattern {{1024/48000, 1024/44100, 0.02, 0, (0, 1024/48000), (0.02, 0), (0.5, 0.02), (0.003, 0.5): pauses and overlaps relative to the packets' coded durations}}, plus runs of 8 and 12 audio frames at the 48 kHz and 44.1 kHz AAC spacings, plus every audio step sequence of 2..{jmax} steps over {{600, 1200, 1800, 3000}} ticks ({n_jitter} sequences x AAC/Opus), plus every standard AAC sample rate (7350 .. 96000 Hz) x 3 sub-sample displacement patterns (0-30 microseconds) x 2 start times x both layouts, plus {n_conv} encode_video/encode_audio histories (every sequence of 2..5 audio frame lengths over Opus {{10, 20, 40, 60 ms}} and AAC {{1024, 2048}}), x {{AAC, Opus}} x both layouts x codecs; executed on the real muxer; per-track presentation timelines rebuilt from stts/ctts (+ edit list if present, empty edits and media_time honoured) and every audio sample's presentation time relative to the first video frame compared with the submitted difference (tolerance 1 tick). Distinct by output bytes."),
             bound: "2-3 video frames, 2-3 audio frames (8 and 12 for the two constant spacings)".into(),
             exhaustive: true,
             assumptions: vec!["the known finding C09/no-start-offset is matched only when neither track has an edit list and every audio sample is off by exactly the lost start offset; any other deviation is reported as a violation".into()],
